@@ -10,6 +10,10 @@ trap 'git -C /repo worktree remove --force $wt 2>/dev/null; rm -rf $wt' EXIT INT
 mkdir -p $wt/$target && cp $out/demo${n}_test.go $wt/$target/zz_demo${n}_test.go
 echo "--- WITHOUT the change:"; (cd $wt && go test -count=1 "$@" ./$target 2>&1 | grep -E "^(ok|FAIL|---|panic)" | head -8)
 git -C $wt apply $out/patch$n.diff || { echo "PATCH DOES NOT APPLY"; exit 3; }
+echo "files: $(git -C $wt diff --stat | tail -1)"
+(cd $wt && rm -f $target/zz_demo${n}_test.go && go build ./... && go vet ./... ) >/dev/null 2>&1 && echo "build+vet: ok" || echo "build+vet: FAIL"
+(cd $wt && go build -tags verif ./... ) >/dev/null 2>&1 && echo "build -tags verif: ok" || echo "build -tags verif: FAIL"
+cp $out/demo${n}_test.go $wt/$target/zz_demo${n}_test.go
 t=$(cd $wt && rm $target/zz_demo${n}_test.go && go test -count=1 ./... 2>&1 | grep -c "^FAIL\|^---"); echo "repo tests failing lines with the change: $t"
 cp $out/demo${n}_test.go $wt/$target/zz_demo${n}_test.go
 echo "--- WITH the change:"; (cd $wt && go test -count=1 "$@" ./$target 2>&1 | grep -E "^(ok|FAIL|---|panic)" | head -8)
